@@ -28,6 +28,7 @@ REPS = {
     "str_short": ["", "abc", "café", "中文", "\U0001f600", "it's", 'say "hi"', "back\\slash", "line\nbreak",
                   "tab\there", "\x00\x01", "\r\n", "\\u0041", "x" * 255],
     "str_long": ["y" * 256, "€" * 300, "z" * 70000],
+    "str_layout": ["a = 1\n  \t\nb = 2\n", "  indented", "first\n    \nlast", "\tx\n\ty\n", "trailing  \n", "\n\n"],
     "bytes_numeric": [b"12", b" 7 ", b"-3"],
     "bytes_short": [b"", b"abc", b"\x00\xff", b"it's", b"\n", b"b" * 255], "bytes_long": [b"c" * 256, b"d" * 70000],
     "none": [None],
@@ -53,6 +54,11 @@ def build(fk, via, v, tmp, idx):
         p.insert_python(v, module="verif_sink", attr="recv")
     elif via == "insert_python_two":
         p.insert_python("first", v, module="verif_sink", attr="recv", run_first=False)
+    elif via in ("insert_python_exec", "insert_python_eval"):
+        if not isinstance(v, str):
+            raise TypeError("the exec/eval helpers take source text")
+        getattr(p, via)(v, run_first=(len(v) % 2 == 0))
+        return p.dumps(), "builtin_arg"
     elif via == "append_python":
         p.append_python(v, module="verif_sink", attr="recv", pop_result=True)
     elif via == "constant_args":
@@ -148,7 +154,7 @@ def run(ctx):
                 if tag == "CELL":
                     cells[js["cls"]] = js
     recs, items = [], []
-    vias = ["insert_python", "insert_python_two", "append_python", "constant_args"]
+    vias = ["insert_python", "insert_python_two", "append_python", "constant_args", "insert_python_exec", "insert_python_eval"]
     passes = [(cls, v) for cls, reps in REPS.items() for v in reps]
     for cls, v in passes + passes[::-1]:
         if True:
